@@ -196,10 +196,11 @@ struct Harness
 
     static const char *fmt_of(long f)
     {
-        static const char *F[] = {"", "%s", "%d", "%c", "%5s|", "%s%s"};
+        static const char *F[] = {"", "%s", "%d", "%c", "%5s|", "%s%s", "%s%lc"};
         return F[f];
     }
     // executes a formatted append and returns the library's result; `expect` receives what the C formatter produces
+    bool catf_refused = false;
     int do_catf(a_str *s, long f, long arglen, std::string &expect)
     {
         std::string arg((size_t)arglen, 'x');
@@ -213,8 +214,11 @@ struct Harness
         case 3: n = snprintf(buf, sizeof buf, "%c", 0); r = a_str_catf(s, "%c", 0); break;
         case 4: n = snprintf(buf, sizeof buf, "%5s|", arg.c_str()); r = a_str_catf(s, "%5s|", arg.c_str()); break;
         case 5: n = snprintf(buf, sizeof buf, "%s%s", arg.c_str(), "x"); r = a_str_catf(s, "%s%s", arg.c_str(), "x"); break;
+        // a conversion the C formatter itself refuses (a wide character with no multibyte form in the "C" locale): it reports a negative length
+        case 6: n = snprintf(buf, sizeof buf, "%s%lc", arg.c_str(), (wint_t)0x20AC); r = a_str_catf(s, "%s%lc", arg.c_str(), (wint_t)0x20AC); break;
         }
-        expect.assign(buf, (size_t)n);
+        catf_refused = n < 0;
+        expect.assign(buf, n < 0 ? 0 : (size_t)n);
         return r;
     }
 
@@ -225,6 +229,7 @@ struct Harness
         a_str *s = L.s;
         std::string &m = L.m;
         std::string before = m;
+        bool was_term = is_term(s), refused = false;
         probe = false;
         outcome = "ok";
         unsigned char buf[512];
@@ -416,6 +421,15 @@ struct Harness
             size_t room = s->mem_ - s->num_;
             int r = do_catf(s, o.a, o.b, expect);
             outcome = expect.size() + 1 <= room ? "one-pass" : "two-pass";
+            if (catf_refused)
+            {
+                // the formatter produced nothing: nothing is appended (the state check below compares content and length) and no length is reported
+                outcome = "formatter-refused";
+                refused = true;
+                if (r > 0) { ck.fail("catf-return", "catf returned " + std::to_string(r) + " although the C formatter reported a failure"); return; }
+                probe = true;
+                break;
+            }
             if (r != (int)expect.size()) { ck.fail("catf-return", "catf returned " + std::to_string(r) + ", the C formatter produces " + std::to_string(expect.size()) + " bytes"); return; }
             m += expect;
             probe = !(length_mode && (o.a == 0 || o.a == 1 || o.a == 5));
@@ -426,7 +440,8 @@ struct Harness
         if (ck.ok() && terminating(o.code) && s->ptr_)
         {
             bool changed = m != before;
-            if ((changed || always_terminates(o.code)) && !is_term(s))
+            // an append the formatter refused is a no-op: it need not establish the terminator, but it must not destroy one
+            if ((changed || (refused ? was_term : always_terminates(o.code))) && !is_term(s))
             {
                 ck.fail("not-terminated", s->num_ >= s->mem_ ? "no room for a NUL after the content inside the capacity (length " + std::to_string(s->num_) + ", capacity " + std::to_string(s->mem_) + ")" : "the byte after the content is not NUL");
             }
@@ -453,6 +468,7 @@ struct Harness
             for (size_t i = 0; i < sizeof CPS / sizeof *CPS; ++i) { if (num + 1 <= (size_t)N) { add(S_UTF_CATC, (long)CPS[i]); } }
             add(S_UTF_LEN);
             for (long f = 0; f <= 5; ++f) { add(S_CATF, f, 3); }
+            add(S_CATF, 6, 0); add(S_CATF, 6, 2);
         }
         else
         {
@@ -466,7 +482,7 @@ struct Harness
                 if (num + (size_t)b + 1 <= (size_t)N) { add(S_CATF, 5, b); }
                 add(S_CATF, 4, b);
             }
-            add(S_CATF, 0, 0); add(S_CATF, 2, 1); add(S_CATF, 2, 0); add(S_CATF, 3, 0);
+            add(S_CATF, 0, 0); add(S_CATF, 2, 1); add(S_CATF, 2, 0); add(S_CATF, 3, 0); add(S_CATF, 6, 0); add(S_CATF, 6, 1);
             add(S_UTF_CATC, 0x10000); add(S_UTF_CATC, 0x7FFFFFFF);
             add(S_RTRIM, 1); add(S_TRIM, 0); add(S_LTRIM_, 0);
         }
@@ -759,6 +775,25 @@ static void byte_sweep(const std::string &job)
         a_str_catc(s, b); a_str_catc(s, b == 'x' ? 'y' : 'x'); a_str_catc(s, b);
         a_str_trim(s, set, 1);
         if (why.empty() && (a_str_len(s) != 1 || a_str_ptr(s)[0] != (b == 'x' ? 'y' : 'x') || a_str_ptr(s)[1] != 0)) { why = "trim with the one-byte set did not strip the byte on both sides"; }
+        // white-space trimming (empty set): exactly the six "C"-locale blanks TAB..CR and SPACE are stripped, every other byte value stays
+        {
+            bool blank = (b >= 9 && b <= 13) || b == 32;
+            char mid = 'x';
+            for (int side = 0; side < 3 && why.empty(); ++side) // 0: both, 1: left, 2: right
+            {
+                a_str_setn_(s, 0);
+                a_str_catc(s, b); a_str_catc(s, mid); a_str_catc(s, b);
+                if (side == 0) { a_str_trim(s, nullptr, 0); } else if (side == 1) { a_str_ltrim(s, nullptr, 0); } else { a_str_rtrim(s, nullptr, 0); }
+                std::string want;
+                if (!(blank && side != 2)) { want += (char)b; }
+                want += mid;
+                if (!(blank && side != 1)) { want += (char)b; }
+                if (a_str_len(s) != want.size() || memcmp(a_str_ptr(s), want.data(), want.size()) != 0 || a_str_ptr(s)[want.size()] != 0)
+                {
+                    why = std::string("white-space trim (") + (side == 0 ? "both sides" : side == 1 ? "left" : "right") + (blank ? ") did not strip the blank" : ") stripped a byte that is not white space");
+                }
+            }
+        }
         // comparison with the byte whose top bit is flipped
         a_str *t = a_str_new();
         a_str_setn_(s, 0);
